@@ -838,7 +838,23 @@ func runTight1(m *Model, r *RuleResult) {
 			ctl := m.FuncIsPosctl(f)
 			// (a) guarded by slack(e) == 0
 			guarded := false
+			var deps []ctrlDep
 			for _, d := range iterationControlDeps(st.Block(), loops) {
+				deps = append(deps, d)
+				// `case a && b && c:` of a tagless switch is lowered to a phi of false constants and the last conjunct: on its true edge
+				// every conjunct that feeds the phi is true
+				if phi, isPhi := d.If.Cond.(*ssa.Phi); isPhi && d.Branch == 0 {
+					for _, e := range phi.Edges {
+						if c, isC := e.(*ssa.Const); isC && isConstBool(c, false) {
+							continue
+						}
+						if _, isBin := e.(*ssa.BinOp); isBin {
+							deps = append(deps, ctrlDep{If: &ssa.If{Cond: e}, Branch: 0})
+						}
+					}
+				}
+			}
+			for _, d := range deps {
 				bo, ok := d.If.Cond.(*ssa.BinOp)
 				if !ok {
 					continue
